@@ -11,7 +11,7 @@ LEVEL = "exploration"
 RULE = (
     "A case = a population of 2-7 instances drawn from {plain class, value-equal + hashable, value-equal without "
     "__hash__, expression-builder equality (== returns a truthy node), equality that raises on foreign operands, list subclass (receiver named 'me'), dict subclass (receiver named 'this'), subclass inheriting the "
-    "method, subclass overriding it, class with a functools.wraps-decorated method, class with a property} with small "
+    "method, subclass overriding it, class with a functools.wraps-decorated method (plain, over an already tooled function, applied while a probe was active on the function), class with a property} with small "
     "keys so that equal-but-distinct receivers occur, 1-3 selectors (often on receivers sharing one method; some activated part-way through the history, some deactivated - most recent first - while calls go on) from {Cls.meth > v, "
     "obj.meth > v, box.holder.obj.meth > v (dotted path), decorated method through class or object, property through "
     "the class}, and a random sequence of 4-14 calls over the population plus calls of a module-level function that "
@@ -33,6 +33,7 @@ SHARD_TIMEOUT = {"quick": 900, "thorough": 7200}
 
 SRC = '''
 import functools
+from ptera import probing, tooled
 
 def deco(fn):
     @functools.wraps(fn)
@@ -97,6 +98,27 @@ class Deco:
         v = x - self.k
         return v
 
+class DecoTooled:
+    """the decorator wraps a function that is already tooled (functools.wraps copies its attributes)"""
+    def __init__(self, k):
+        self.k = k
+    @deco
+    @tooled
+    def meth(self, x):
+        v = x - 2 * self.k
+        return v
+
+class DecoLate:
+    """the decorator is applied while a probe is active on the function"""
+    def __init__(self, k):
+        self.k = k
+    def meth(self, x):
+        v = x - 3 * self.k
+        return v
+
+with probing("DecoLate.meth > v"):
+    DecoLate.meth = deco(DecoLate.meth)
+
 class Prop:
     def __init__(self, k):
         self.k = k
@@ -112,7 +134,7 @@ def meth(x):
 class Box:
     pass
 '''
-KINDS = ["Plain", "Eq", "EqNoHash", "Sub", "Over", "L", "D", "Deco", "Prop", "EqExpr", "EqSloppy"]
+KINDS = ["Plain", "Eq", "EqNoHash", "Sub", "Over", "L", "D", "Deco", "Prop", "EqExpr", "EqSloppy", "DecoTooled", "DecoLate"]
 RECV = {"L": "me", "D": "this"}
 
 
@@ -139,8 +161,8 @@ def func_of(ns, kind):
     """The function object a call on an instance of `kind` executes."""
     if kind in ("Plain", "Eq", "EqNoHash", "Sub", "EqExpr", "EqSloppy"):
         return ns["Plain"].__dict__["meth"]
-    if kind == "Deco":
-        return ns["Deco"].__dict__["meth"].__wrapped__
+    if kind in ("Deco", "DecoTooled", "DecoLate"):
+        return ns[kind].__dict__["meth"].__wrapped__
     if kind == "Prop":
         return ns["Prop"].__dict__["pval"].fget
     return ns[kind].__dict__["meth"]
@@ -155,6 +177,10 @@ def expected_value(kind, k, x):
         return x + k * 13
     if kind == "Deco":
         return x - k
+    if kind == "DecoTooled":
+        return x - 2 * k
+    if kind == "DecoLate":
+        return x - 3 * k
     if kind == "Prop":
         return k * 2 + 1
     return x + k
